@@ -21,7 +21,7 @@ Contents
 5. Genuine defects found on the pinned tree, their repair, the one known finding
 6. Limits, honest non-coverage, tooling limits, known false-alarm surface
 7. Interface (commands, exit codes, evidence, known findings, thorough tier)
-8. Validation of the machinery: three rounds of seeded mutations, controls, four
+8. Validation of the machinery: five rounds of seeded mutations, controls, five
    rounds of behaviour-preserving refactorings; which check catches which change;
    what was missed; false alarms met and how they were removed
 
@@ -110,8 +110,8 @@ on `stream.Merge`, i.e. on the same defect the ownership rule found (F2).
 /verif/known_findings.json open and fixed findings (§5, §7)
 /verif/evidence/Cnn.json   rewritten by every run
 /verif/reports/            violation reports named in "VIOLATION … replay=<path>" (git-ignored)
-/verif/controls/Cnn/*.diff 107 one-line control edits (tools/gen_controls.py)
-/verif/seeded/*/           220 sub-agent mutations with demonstration tests and meta.json
+/verif/controls/Cnn/*.diff 121 one-line control edits (tools/gen_controls.py)
+/verif/seeded/*/           280 sub-agent mutations with demonstration tests and meta.json
 /verif/refactorings/*/     behaviour-preserving refactorings used as false-alarm tests
 /verif/tools/              baseline.sh, seed_import.sh, seed_confirm.sh, seed_run.sh, ref_run.sh, ref_all.sh, regress.sh,
                            gen_manifest.py, gen_matrix.py, gen_design.py, validate.py
@@ -414,13 +414,46 @@ to `/repo` itself, checked, and undone (`tools/seed_confirm.sh`, recorded in
   literal handed to a lock wrapper, the quantifier extracted into `inAll`); each
   was removed by making the rule follow the helper / the caller's context only.
 
+* Round 5 (60, after the round-5 refactoring hardening; prompts listed all
+  eleven earlier mutations per property): **34 caught at once, 26 missed** - the
+  hit rate of a fresh round stays near 57%. Two sub-agents also remarked on the
+  *clean* tree; both remarks were genuine defects (F13, F14, section 5). The
+  misses: (a) *sibling property again* - `C01.tree-gen`, `C01.unlink-mark`,
+  `C02.range-stays-bounded` (from `C01.bounds`), `C08.group-ctx` (from
+  `C14.bg-ctx`), `C09.wg-count`. (b) *existence where every path is needed* -
+  `C09.own-param` (the wrapper / the hand-over on every return: `First(s, 0)`
+  returning `Empty()` drops `s`), `C01.bounds` (the plain iterator only under the
+  Unbounded kind), `C14.order|i-only-incremented`. (c) *missing necessary
+  conditions, now rules*: `C01/C03.index-own-count` (a node's arrays are indexed
+  with the node's own `n`), `C01.kv-lockstep` extended to reads into locals (key
+  and value of one entry come from one node and one index),
+  `C04|upper-limit-is-len` (the index guard's limit is `Len()`, not the buffer
+  size), `C04/C15.iter-reads-live`, `C15.iter-watches-container` (pointer
+  receiver stored into the iterator), `C05|follows-element` (the sink continues at
+  the slot swapped into), `C04/C05/C19.copy-moves-items` (a `make(.., 0, n)`
+  destination receives nothing), `C07.yielded-items-handed-over` (a buffer field
+  that is handed out is replaced before the return), `C07.counter-bound` (order
+  test, not equality), `C11|armed-timer-watched` and `C17|armed-at-wait`
+  (typestates: an armed timer's channel is in the select; a consumed tick is
+  followed by a Reset before the next wait), `C12|closed-case-removed`,
+  `C14.no-foreign-call-under-lock`, `C14.who-may-cancel`,
+  `C16|consumes-only-its-wakeup`, `C19.empty-input-safe` (conditional constant
+  propagation under "every slice argument is empty": the definite path indexes
+  no argument), `C19.length-mismatch-panics`, `C19.namesake-delegation`,
+  `C20|fresh-timer`. One earlier seed (`C20-r4m1`, pooled timer) turned out to
+  have been reported only through an artefact (its `defer` spilled the results,
+  which an unrelated rule could not read); when `returnedValue` removed the
+  artefact the regression run showed the loss, and `C20|fresh-timer` now reports
+  it for the right reason. This is why `tools/regress.sh` is re-run after every
+  hardening step.
+
 A rule written after seeing a seed says so above; that is the honest reading of
-"caught": all 220 seeds are reported today; in rounds 2-4, 116 of 180 were
+"caught": all 280 seeds are reported today; in rounds 2-5, 150 of 240 were
 reported by the rules that existed when the seed arrived.
 
 ### 8.2 Controls
 
-107 one-line edits of my own (`tools/gen_controls.py`), at least three per
+121 one-line edits of my own (`tools/gen_controls.py`), at least three per
 property, each aimed at one rule's clause; all type-check and all fire.
 
 ### 8.3 Behaviour-preserving refactorings (false-alarm test)
